@@ -7,6 +7,66 @@ fn ramp(shape: &[usize]) -> Array<u64> {
     Array::new((0..n as u64).collect::<Vec<_>>(), shape.to_vec()).expect("ramp array")
 }
 
+/// `hist.arr shape values ops` — a call history on one array object (see `handleHistArr` in the Lean driver)
+pub fn eval_hist(a: &[&str]) -> Option<String> {
+    let mut arr: Array<f64> = Array::new(parse_nats(a[1]).into_iter().map(|v| v as f64).collect::<Vec<_>>(), parse_nats(a[0])).ok()?;
+    let int = |v: f64| format!("{}", v as u64);
+    let unflat = |shape: &[usize], mut f: usize| -> Vec<usize> { let mut idx = vec![0; shape.len()]; for (k, n) in shape.iter().enumerate().rev() { idx[k] = f % n; f /= n; } idx };
+    let mut out: Vec<String> = Vec::new();
+    for op in a[2].split(';') {
+        let f: Vec<&str> = op.split(':').collect();
+        let tok = match f[0] {
+            "get" => match arr.get(parse_nats(f[1])) { Some(v) => format!("S{}", int(*v)), None => "N".into() },
+            "set" => { let idx = unflat(arr.shape(), f[1].parse().ok()?); if f[1].parse::<usize>().ok()? % 2 == 0 { arr[idx] = f[2].parse::<u64>().ok()? as f64; } else { *arr.get_mut(idx)? = f[2].parse::<u64>().ok()? as f64; } "-".into() }
+            "clone" => { arr = arr.clone(); "-".into() }
+            "view" => match arr.get_axis(Axis(f[1].parse().ok()?), f[2].parse().ok()?) {
+                None => "NOVIEW".into(),
+                Some(view) => { let mut it = view.iter(); let mut h = Vec::new();
+                    for _ in 0..f[3].parse::<usize>().ok()? { let len = it.len(); let item = it.next(); h.push(format!("{}:{}", len, match item { Some(v) => format!("S{}", int(*v)), None => "N".into() })); }
+                    h.join(",") }
+            },
+            "axis" => { let mut it = arr.iter_axis(Axis(f[1].parse().ok()?)); let mut h = Vec::new();
+                for _ in 0..f[2].parse::<usize>().ok()? { let len = it.len(); let item = it.next();
+                    h.push(format!("{}:{}", len, match item { Some(v) => format!("S{}", v.iter().map(|x| int(*x)).collect::<Vec<_>>().join("/")), None => "N".into() })); }
+                h.join(",") }
+            "indices" => { let mut it = arr.iter_indices(); let mut h = Vec::new();
+                for _ in 0..f[1].parse::<usize>().ok()? { let len = it.len(); let item = it.next();
+                    h.push(format!("{}:{}", len, match item { Some(i) => format!("S{}", i.iter().map(|x| x.to_string()).collect::<Vec<_>>().join("/")), None => "N".into() })); }
+                h.join(",") }
+            "sum" | "resum" => { let r = arr.sum(Axis(f[1].parse().ok()?));
+                if f[0] == "resum" { arr = r; "-".into() } else { format!("{}|{}", r.shape().iter().map(|x| x.to_string()).collect::<Vec<_>>().join("/"), r.as_slice().iter().map(|x| int(*x)).collect::<Vec<_>>().join("/")) } }
+            _ => return None,
+        };
+        out.push(tok);
+    }
+    Some(out.join(";"))
+}
+
+fn gen_hist(rng: &mut Rng, n: usize, out: &mut Vec<String>) {
+    for i in 0..n {
+        let d = 1 + i % 6;
+        let mut cur = shapes::random_shape(rng, d, d, 1, if d <= 2 { 7 } else if d <= 4 { 4 } else { 3 }, 400);
+        let len: usize = cur.iter().product();
+        let data: Vec<usize> = (0..len).map(|_| rng.range(0, 999) as usize).collect();
+        let shape = cur.clone();
+        let mut ops: Vec<String> = Vec::new();
+        for _ in 0..(3 + rng.below(8)) {
+            let curlen: usize = cur.iter().product();
+            let ax = rng.below(cur.len() as u64) as usize;
+            match rng.below(10) {
+                0 | 1 => { let idx: Vec<usize> = cur.iter().map(|v| { let extra = if rng.chance(1, 8) { 1 } else { 0 }; rng.below(*v as u64 + extra) as usize }).collect(); ops.push(format!("get:{}", nats(&idx))); }
+                2 | 3 => ops.push(format!("set:{}:{}", rng.below(curlen as u64), rng.range(0, 999))),
+                4 | 5 => ops.push(format!("view:{ax}:{}:{}", rng.below(cur[ax] as u64), curlen / cur[ax] + 3)),
+                6 => ops.push(format!("axis:{ax}:{}", cur[ax] + 2)),
+                7 => ops.push(format!("indices:{}", curlen.min(40) + 2)),
+                8 => if cur.len() > 1 { if rng.chance(1, 2) { ops.push(format!("resum:{ax}")); cur.remove(ax); } else { ops.push(format!("sum:{ax}")); } } else { ops.push("clone".into()); },
+                _ => ops.push("clone".into()),
+            }
+        }
+        out.push(format!("hist.arr\t{}\t{}\t{}", nats(&shape), nats(&data), ops.join(";")));
+    }
+}
+
 pub fn eval(op: &str, a: &[&str]) -> Option<String> {
     match op {
         // c19.get shape idx
@@ -77,6 +137,7 @@ pub fn eval(op: &str, a: &[&str]) -> Option<String> {
 }
 
 pub fn gen(ctx: &Ctx, rng: &mut Rng, out: &mut Vec<String>) {
+    gen_hist(rng, if ctx.tier_thorough { 2000 } else { 200 }, out);
     // exhaustive small scope: quick 1-4 axes x lengths 1..3 plus 1-3 axes x 1..4; thorough 1-5 x 1..4 and 1-4 x 1..5
     let mut shp = if ctx.tier_thorough {
         let mut s = shapes::all_shapes(1, 5, 1, 4);
